@@ -51,7 +51,7 @@ def run(case):
             env = dict(os.environ, VERIF_REPO=d, VERIF_ROOT=os.path.join(d, ".verif-out"))
             os.makedirs(env["VERIF_ROOT"], exist_ok=True)
             shutil.copy(ROOT + "/known_findings.json", env["VERIF_ROOT"])
-            r = subprocess.run([ROOT + "/bin/oapsa", "-property", prop, "-tier", os.environ.get("TIER", "quick")], env=env, capture_output=True, text=True, cwd=ROOT)
+            r = subprocess.run([os.environ.get("OAPSA_BIN", ROOT + "/bin/oapsa"), "-property", prop, "-tier", os.environ.get("TIER", "quick")], env=env, capture_output=True, text=True, cwd=ROOT)
             viol = [l for l in r.stdout.splitlines() if "] violated:" in l or "] undecided:" in l]
             fired = r.returncode != 0 and "VIOLATION property=" + prop in r.stdout
             import re as _re
@@ -67,7 +67,8 @@ def run(case):
     finally:
         shutil.rmtree(d, ignore_errors=True)
 
-subprocess.check_call([ROOT + "/scripts/setup.sh"], stdout=subprocess.DEVNULL)
+if not os.environ.get("OAPSA_BIN"):
+    subprocess.check_call([ROOT + "/scripts/setup.sh"], stdout=subprocess.DEVNULL)
 cs = [c for c in cases() if not flt or any(f in c[0] for f in flt)]
 bad = 0
 with cf.ThreadPoolExecutor(jobs) as ex:
